@@ -289,7 +289,8 @@ pub fn oracle(f: u32, a: &Args, out: &Args) -> Option<(&'static str, String)> {
                         _ => false,
                     };
                     if !agree {
-                        return Some(("C15", format!("one-shot {:?} vs async {:?}", sync[0], out[0])));
+                        // when the one-shot reader does return the frame, the async reader is not an inverse of the writer either
+                        return Some((if sync[0][0] == 1 { "C15+C14" } else { "C15" }, format!("one-shot {:?} vs async {:?}", sync[0], out[0])));
                     }
                 }
             }
